@@ -30,6 +30,19 @@ def model_check(rep, d, quick: bool):
     if res.violated:
         rep.notes.append(f"TLC: {res.violated} violated on the model: {res.counterexample[:600]}")
         rep.extra["tlc_law_violations"] = res.violated
+    # histories of ANY length: the complete reachable graph of file-tree states (FsHistoryUnb.tla: counter and history outside the fingerprint)
+    unb = {}
+    for name, consts in (("any-length", {"CrashPoints": set(), "Docs": {"d1", "d2", "dBad"} if quick else set(fshist.DOCS), "HookKinds": {"ok"} if quick else set(fshist.HOOKS)}),
+                         ("any-length-with-crashes", {"CrashPoints": {"package", "metadata", "rm_models", "client", "hooks"}, "Docs": {"d1", "d2"} if quick else {"d1", "d2", "dWarn"}, "HookKinds": {"ok"}})):
+        ucfg = tlc.write_cfg(d / f"fs-{name}.cfg", {"MaxCmds": 1000000, "MaxTouches": 99, "Touches": ALL["Touches"], **consts},
+                             ["NoClobber", "Converges", "NoStale", "ExitLaw", "RejectedWritesNothing"], props=["Confined", "NoClobberStep", "RejectedStep"], view="ViewU")
+        ures = tlc.run_tlc("FsHistoryUnb.tla", ucfg, workers=NCPU, timeout=3000)
+        rep.tlc(ures)
+        if ures.violated:
+            rep.notes.append(f"TLC ({name}): {ures.violated} violated on the model: {ures.counterexample[:600]}")
+            rep.extra.setdefault("tlc_law_violations", []).extend(ures.violated)
+        unb[name] = {"distinct_states": ures.distinct, "depth": ures.depth, "complete": "states left on queue" not in ures.out or ", 0 states left on queue" in ures.out}
+    rep.extra["histories_of_any_length"] = unb
     # emission run (histories with their predicted trees); smaller alphabet of hooks to keep the number of histories replayable
     cfg = tlc.write_cfg(d / "fs-emit.cfg", {"CrashPoints": set(), "MaxCmds": 2, "Docs": set(fshist.DOCS), "HookKinds": {"ok"} if quick else set(fshist.HOOKS),
                                             "Touches": ALL["Touches"], "MaxTouches": 1 if quick else 2, "EmitJson": True}, LAWS + ["Emit"])
